@@ -22,7 +22,7 @@ for a in ("NLOPT_GN_DIRECT", "NLOPT_GN_DIRECT_L", "NLOPT_GN_DIRECT_L_RAND", "NLO
 for a in ("NLOPT_LN_AUGLAG", "NLOPT_LD_AUGLAG", "NLOPT_LN_AUGLAG_EQ", "NLOPT_LD_AUGLAG_EQ", "NLOPT_AUGLAG", "NLOPT_AUGLAG_EQ"):
     OVERSHOOT[a] = 2                     # one evaluation after each subsidiary run (+1 when the subsidiary itself overshoots by one)
 for a in ("NLOPT_LD_TNEWTON", "NLOPT_LD_TNEWTON_RESTART", "NLOPT_LD_TNEWTON_PRECOND", "NLOPT_LD_TNEWTON_PRECOND_RESTART", "NLOPT_LD_LBFGS", "NLOPT_LD_VAR1", "NLOPT_LD_VAR2"):
-    OVERSHOOT[a] = 2                     # Luksan: limits tested once per iteration (initial + line-search evaluations)
+    OVERSHOOT[a] = 25                    # Luksan: limits tested once per iteration; a line search makes up to ~20 evaluations
 OVERSHOOT["NLOPT_GN_AGS"] = 2
 OVERSHOOT["NLOPT_GN_CRS2_LM"] = 2
 # one batch of samples per iteration (the property allows it): 2 per dimension and selected rectangle
@@ -37,7 +37,10 @@ def allowed(ri):
         return 12 + 8 * n                # flin_ records the limit, the line search acts on it later
     b = OVERSHOOT.get(ri.name, 0)
     if ri.name in problems.MLSL or ri.name in problems.AUGLAG:
-        b += 2
+        # + the overshoot of the subsidiary optimizer (explicit one, or the default MMA / COBYLA)
+        b += 2 + (OVERSHOOT.get(ri.local_name, 0) if ri.local_name else 0)
+        if ri.local_name == "NLOPT_LN_PRAXIS":
+            b += 12 + 8 * n
     return b
 
 
@@ -52,12 +55,13 @@ def mon_limits(ri):
             return ({"alg": ri.name, "cause": "evaluation limit exceeded", "by": "unbounded" if oc > 3 * N + 50 else "more than the family's overshoot"},
                     "%s: maxeval=%d but %d objective evaluations (allowed overshoot %d)" % (ri.name, N, oc, b))
         if ri.ret == 5 and oc < N:
-            return ({"alg": ri.name, "cause": "MAXEVAL_REACHED before maxeval evaluations"}, "%s: MAXEVAL_REACHED after %d < %d evaluations" % (ri.name, oc, N))
+            return ({"alg": ri.name, "cause": "MAXEVAL_REACHED before maxeval evaluations", "constrained": ("ineq" in ri.sp or "eq" in ri.sp)}, "%s: MAXEVAL_REACHED after %d < %d evaluations" % (ri.name, oc, N))
     if "maxtime" in ri.sp and "clockq" in ri.sp:
         from ..common import unhex
         T, q = unhex(ri.sp["maxtime"]), unhex(ri.sp["clockq"])
-        if ri.ret == 6 and oc * q < T:
-            return ({"alg": ri.name, "cause": "MAXTIME_REACHED before maxtime elapsed"}, "%s: MAXTIME_REACHED at virtual time %g < %g" % (ri.name, oc * q, T))
+        allc = len(ri.run.calls)
+        if ri.ret == 6 and allc * q < T:
+            return ({"alg": ri.name, "cause": "MAXTIME_REACHED before maxtime elapsed"}, "%s: MAXTIME_REACHED at virtual time %g < %g" % (ri.name, allc * q, T))
         b = allowed(ri)
         if q > 0 and T > 0 and b is not None and N <= 0 and oc > math.ceil(T / q) + b + 1:
             return ({"alg": ri.name, "cause": "time limit exceeded", "by": "unbounded" if oc > 3 * math.ceil(T / q) + 50 else "more than the family's overshoot"},
